@@ -388,3 +388,23 @@ pub unsafe extern "C" fn pthread_setname_np(t: libc::pthread_t, name: *const c_c
     }
     real(t, name)
 }
+
+// ---- OS randomness --------------------------------------------------------------------------
+// std seeds `RandomState` (HashMap / HashSet iteration order) from getrandom(2), looked up as a
+// weak symbol exactly so that it can be interposed. Inside a simulation the bytes come from
+// the run's "osrandom" stream, so hash-map iteration order in the code under test is a function
+// of the seed like everything else.
+
+pub static GETRANDOM_CALLS: std::sync::atomic::AtomicU64 = std::sync::atomic::AtomicU64::new(0);
+
+#[no_mangle]
+pub unsafe extern "C" fn getrandom(buf: *mut c_void, len: size_t, flags: c_uint) -> ssize_t {
+    if let Some((sim, _)) = simrt::current() {
+        GETRANDOM_CALLS.fetch_add(1, std::sync::atomic::Ordering::Relaxed);
+        let out = std::slice::from_raw_parts_mut(buf as *mut u8, len);
+        sim.with_stream("osrandom", |r| r.fill(out));
+        sim.probe("getrandom_simulated");
+        return len as ssize_t;
+    }
+    libc::syscall(libc::SYS_getrandom, buf, len, flags) as ssize_t
+}
